@@ -58,6 +58,58 @@ Theorem C18_vacated_port : forall sd w u x k, index_of x (ports w sd u) = Some k
 Proof. exact remove_vacates. Qed.
 Print Assumptions C18_vacated_port.
 
+(* pop(i), python index arithmetic included (negative i): on a fixed-size list exactly port i receives
+   a new placeholder and every other port keeps its stream; on a variable-size list exactly port i goes *)
+Theorem C18_pop_vacates_its_port : forall sd w u i k b, InvS sd w -> pfixed w sd u = true ->
+  norm_index i (length (ports w sd u)) = Some k ->
+  ports (fst (pop b w sd u i)) sd u = upd (ports w sd u) k (M_ (fresh w)).
+Proof. exact pop_fixed_vacates. Qed.
+Print Assumptions C18_pop_vacates_its_port.
+Theorem C18_pop_variable_removes_its_port : forall sd w u i k b, pfixed w sd u = false ->
+  norm_index i (length (ports w sd u)) = Some k ->
+  ports (fst (pop b w sd u i)) sd u = remove_nth k (ports w sd u).
+Proof. exact pop_var_shrinks. Qed.
+Print Assumptions C18_pop_variable_removes_its_port.
+(* L[i] = x writes port i only *)
+Theorem C18_item_assignment_writes_its_port : forall sd w u i k x,
+  norm_index i (length (ports w sd u)) = Some k ->
+  ports (fst (set_stream w sd u i (RObj x))) sd u = upd (ports w sd u) k x.
+Proof. exact set_stream_writes. Qed.
+Print Assumptions C18_item_assignment_writes_its_port.
+
+(* Whatever leaves a port is undocked, streams and placeholders alike (a placeholder may be shared by an
+   outlet list and an inlet list, so a stale sink/source on it would stay visible through the other unit):
+   the object overwritten by L[i] = x (hence by replace, remove, pop on a fixed list, disconnect_sink/source),
+   the object popped from a variable-size list, everything dropped by clear() *)
+Theorem C18_replaced_object_is_undocked : forall sd w u i k x,
+  norm_index i (length (ports w sd u)) = Some k ->
+  let old := nth k (ports w sd u) x in
+  old <> x -> old <> M_ (fresh w) ->
+  ptr (fst (set_stream w sd u i (RObj x))) sd old = None.
+Proof. exact set_stream_undocks_old. Qed.
+Print Assumptions C18_replaced_object_is_undocked.
+Theorem C18_popped_object_is_undocked : forall sd w u i k, pfixed w sd u = false ->
+  norm_index i (length (ports w sd u)) = Some k ->
+  ptr (fst (pop true w sd u i)) sd (nth k (ports w sd u) (M_ 0)) = None.
+Proof. exact pop_var_undocks. Qed.
+Print Assumptions C18_popped_object_is_undocked.
+Theorem C18_cleared_objects_are_undocked : forall sd w u y, pfixed w sd u = false -> In y (ports w sd u) ->
+  ptr (fst (clear w sd u)) sd y = None.
+Proof. exact clear_var_undocks. Qed.
+Print Assumptions C18_cleared_objects_are_undocked.
+
+(* The global form of the clause for placeholders: a placeholder that is reachable through a port list is
+   listed wherever it points.  [Inv] has this for streams (first two clauses of C18_invariant_meaning) and, for
+   placeholders, only the direction "listed => points back".  The statement below is NOT proved here (it needs
+   a second pass over every operation: garbage placeholders created by operations that raise keep a pointer,
+   so the clause has to be restricted to reachable ones); it is evaluated directly on the real objects by the
+   oracle after every operation, its decidable form [live_backb] holds along the example history, and the
+   local theorems above cover the places where the code resets the pointers. *)
+Definition Live (w : world) : Prop := forall sd v u m,
+  In (M_ m) (ports w (other sd) v) -> ptr w sd (M_ m) = Some u -> In (M_ m) (ports w sd u).
+Definition C18_placeholder_backpointer_statement : Prop :=
+  forall ops w, Inv w -> Live w -> within_pre w ops -> Live (run w ops).
+
 (* ---------------------------------------------------------------- examples *)
 Ltac within_tac := vm_compute; repeat split; reflexivity.
 
@@ -77,6 +129,9 @@ Definition demo : list op :=
    OSetSliceStep SIn 6 None None (-1)%Z [AObj (S_ 0); AObj (S_ 1); AObj (S_ 2)]].
 Example C18_nonvacuous : within_pre (empty_world 5) (setup3 ++ demo) /\ Inv (run U3 demo).
 Proof. assert (H : within_pre (empty_world 5) (setup3 ++ demo)) by within_tac. split; [exact H | now apply Inv_after]. Qed.
+Example C18_placeholder_backpointer_holds_along_demo :
+  forallb (fun n => live_backb (run U3 (firstn n demo))) (seq 0 (S (length demo))) = true.
+Proof. vm_compute. reflexivity. Qed.
 
 (* DESIGN.md section 5 item 13: with the source as found, pop on a variable-size list breaks the
    invariant (the stream keeps its sink).  The repaired branch is the one [step] models. *)
